@@ -271,4 +271,415 @@ theorem cleanComps_append_left (r : Bool) (a b : List Bytes) (ha : ∀ c ∈ a, 
     cleanComps r (a ++ b) = cleanComps r (cleanComps r a ++ b) := by
   rw [cleanComps_append, cleanComps_append, cleanComps_id r _ (cleanComps_clean r a ha)]
 
+
+/-! ## rendering clean component lists -/
+
+theorem lastIndexOf_append_sep' (c : UInt8) (a b : Bytes) :
+    lastIndexOf c (a ++ c :: b) = (a.length : Int) + lastIndexOf c b + 1 := by
+  induction a with
+  | nil =>
+    have := lastIndexOf_ge c b
+    simp only [List.nil_append, lastIndexOf, List.length_nil]
+    split
+    · simp
+    · simp; omega
+  | cons x xs ih =>
+    have := lastIndexOf_ge c b
+    simp only [List.cons_append, lastIndexOf, ih, List.length_cons]
+    split <;> omega
+
+theorem cleanComps_mem {r : Bool} {cs : List Bytes} (h : CleanComps r cs) :
+    ∀ c ∈ cs, c ≠ [] ∧ c ≠ [dot] ∧ slash ∉ c := by
+  obtain ⟨ups, names, rfl, hu, hn, _⟩ := h
+  intro c hc
+  simp only [List.mem_append] at hc
+  rcases hc with hc | hc
+  · have := hu c hc; subst this; simp [dd, dot, slash]
+  · obtain ⟨a, b, _, d⟩ := hn c hc; exact ⟨a, b, d⟩
+
+theorem joinWith_cons_ne_nil (c : UInt8) (a : Bytes) (rest : List Bytes) (ha : a ≠ []) :
+    joinWith c (a :: rest) ≠ [] := by
+  cases rest with
+  | nil => simpa [joinWith] using ha
+  | cons b bs => simp [joinWith, ha]
+
+theorem joinWith_cons_head (c : UInt8) (a : Bytes) (rest : List Bytes) (ha : a ≠ []) :
+    (joinWith c (a :: rest)).head? = a.head? := by
+  cases a with
+  | nil => exact absurd rfl ha
+  | cons x xs =>
+    cases rest with
+    | nil => simp [joinWith]
+    | cons b bs => simp [joinWith]
+
+/-- the rendering of a non-empty clean list is not `.`, not empty, and does not start with `/` or `./` -/
+theorem render_facts {cs : List Bytes} (h : CleanComps false cs) (hne : cs ≠ []) :
+    joinWith slash cs ≠ [] ∧ joinWith slash cs ≠ [dot] ∧ (joinWith slash cs).head? ≠ some slash ∧
+    ¬ ([dot, slash] <+: joinWith slash cs) := by
+  cases cs with
+  | nil => exact absurd rfl hne
+  | cons a rest =>
+    obtain ⟨ha0, had, has⟩ := cleanComps_mem h a (by simp)
+    refine ⟨joinWith_cons_ne_nil slash a rest ha0, ?_, ?_, ?_⟩
+    · cases rest with
+      | nil => simpa [joinWith] using had
+      | cons b bs =>
+        simp only [joinWith]
+        intro hh
+        have := congrArg List.length hh
+        cases a with
+        | nil => exact ha0 rfl
+        | cons x xs => simp at this
+    · rw [joinWith_cons_head slash a rest ha0]
+      cases a with
+      | nil => exact absurd rfl ha0
+      | cons x xs =>
+        simp only [List.head?_cons]
+        intro hx; injection hx with hx; subst hx; simp at has
+    · cases a with
+      | nil => exact absurd rfl ha0
+      | cons x xs =>
+        cases xs with
+        | nil =>
+          cases rest with
+          | nil => simp [joinWith]
+          | cons b bs =>
+            simp only [joinWith, List.cons_append, List.nil_append, List.cons_prefix_cons]
+            intro ⟨hx, _⟩
+            subst hx
+            exact had rfl
+        | cons y ys =>
+          have hy : y ≠ slash := by
+            intro e; subst e; simp at has
+          cases rest with
+          | nil =>
+            simp only [joinWith, List.cons_prefix_cons]
+            intro ⟨_, hh, _⟩; exact hy hh.symm
+          | cons b bs =>
+            simp only [joinWith, List.cons_append, List.cons_prefix_cons]
+            intro ⟨_, hh, _⟩; exact hy hh.symm
+
+/-- the value `MustRelPath` builds for a clean component list -/
+def ofComps (cs : List Bytes) : RelPath :=
+  if cs = [] then ⟨[], 0⟩ else ⟨joinWith slash cs, lastIndexOf slash (joinWith slash cs)⟩
+
+/-- A canonical relative path value. -/
+def RelPath.Clean (p : RelPath) : Prop := ∃ cs, CleanComps false cs ∧ p = ofComps cs
+
+theorem cleanComps_nil (r : Bool) : CleanComps r [] := ⟨[], [], rfl, by simp, by simp, by simp⟩
+
+theorem ofComps_path_nil {cs : List Bytes} (h : CleanComps false cs) : (ofComps cs).path = [] ↔ cs = [] := by
+  unfold ofComps
+  split
+  · rename_i h0; simp [h0]
+  · rename_i h0
+    simp only [h0, iff_false]
+    exact (render_facts h h0).1
+
+theorem ofComps_inj {a b : List Bytes} (ha : CleanComps false a) (hb : CleanComps false b)
+    (h : ofComps a = ofComps b) : a = b := by
+  have hp : (ofComps a).path = (ofComps b).path := by rw [h]
+  by_cases ha0 : a = []
+  · subst ha0
+    have : (ofComps b).path = [] := by rw [← hp]; simp [ofComps]
+    exact ((ofComps_path_nil hb).1 this).symm
+  · by_cases hb0 : b = []
+    · subst hb0
+      have : (ofComps a).path = [] := by rw [hp]; simp [ofComps]
+      exact absurd ((ofComps_path_nil ha).1 this) ha0
+    · simp only [ofComps, ha0, hb0, if_false] at hp
+      have h1 := splitOn_joinWith slash a ha0 (fun x hx => (cleanComps_mem ha x hx).2.2)
+      have h2 := splitOn_joinWith slash b hb0 (fun x hx => (cleanComps_mem hb x hx).2.2)
+      rw [← h1, ← h2, hp]
+
+/-! ## `path.Clean` and `MustRelPath` -/
+
+theorem cleanComps_splitOn_clean (r : Bool) (s : Bytes) : CleanComps r (cleanComps r (splitOn slash s)) :=
+  cleanComps_clean r _ (splitOn_mem_nosep slash s)
+
+/-- `MustRelPath` of anything not starting with `/` is `ofComps` of the cleaned components -/
+theorem mustRel_eq (s : Bytes) (h : s.head? ≠ some slash) :
+    mustRel s = some (ofComps (cleanComps false (splitOn slash s))) := by
+  cases s with
+  | nil => simp [mustRel, goClean, ofComps, cleanComps, splitOn, cleanStep, dot, slash]
+  | cons c t =>
+    have hc : ¬ c = slash := by simpa using h
+    have hcl := cleanComps_splitOn_clean false (c :: t)
+    generalize hcs : cleanComps false (splitOn slash (c :: t)) = cs at hcl
+    have hg : goClean (c :: t) = if joinWith slash cs = [] then [dot] else joinWith slash cs := by
+      simp [goClean, hc, hcs]
+    by_cases h0 : cs = []
+    · subst h0
+      simp [mustRel, hg, joinWith, ofComps, dot, slash]
+    · obtain ⟨f1, f2, f3, _⟩ := render_facts hcl h0
+      simp [mustRel, hg, f1, f2, f3, ofComps, h0]
+
+theorem mustRel_rooted (s : Bytes) (h : s.head? = some slash) : mustRel s = none := by
+  cases s with
+  | nil => simp at h
+  | cons c t =>
+    have hc : c = slash := by simpa using h
+    simp [mustRel, goClean, hc]
+
+/-- **Every value `MustRelPath` produces is canonical.** -/
+theorem mustRel_clean (s : Bytes) (p : RelPath) (h : mustRel s = some p) : p.Clean := by
+  by_cases hs : s.head? = some slash
+  · rw [mustRel_rooted s hs] at h; cases h
+  · rw [mustRel_eq s hs] at h
+    injection h with h
+    exact ⟨_, cleanComps_splitOn_clean false s, h.symm⟩
+
+/-- `path.Clean` is idempotent on relative inputs (stated through `MustRelPath`): re-parsing a rendering gives
+    the same value -/
+theorem mustRel_render {cs : List Bytes} (h : CleanComps false cs) (hne : cs ≠ []) :
+    mustRel (joinWith slash cs) = some (ofComps cs) := by
+  rw [mustRel_eq _ (render_facts h hne).2.2.1,
+    splitOn_joinWith slash cs hne (fun x hx => (cleanComps_mem h x hx).2.2), cleanComps_id false cs h]
+
+
+/-! ## the operations, on component lists -/
+
+theorem cleanComps_cons_skip (r : Bool) (c : Bytes) (cs : List Bytes) (h : c = [] ∨ c = [dot]) :
+    cleanComps r (c :: cs) = cleanComps r cs := by
+  simp [cleanComps, List.foldl_cons, cleanStep_skip r [] c h]
+
+theorem cleanComps_prefix {r : Bool} {a b : List Bytes} (h : CleanComps r (a ++ b)) : CleanComps r a := by
+  obtain ⟨ups, names, he, hu, hn, hr⟩ := h
+  rcases List.append_eq_append_iff.1 he with ⟨a', h1, h2⟩ | ⟨c', h1, h2⟩
+  · -- ups = a ++ a'
+    refine ⟨a, [], by simp, ?_, by simp, ?_⟩
+    · intro c hc; exact hu c (by rw [h1]; simp [hc])
+    · intro hh; have := hr hh; rw [this] at h1; simp at h1; exact h1.1
+  · -- a = ups ++ c'
+    refine ⟨ups, c', h1, hu, ?_, hr⟩
+    intro c hc; exact hn c (by rw [h2]; simp [hc])
+
+theorem cleanComps_suffix {a b : List Bytes} (h : CleanComps false (a ++ b)) : CleanComps false b := by
+  obtain ⟨ups, names, he, hu, hn, _⟩ := h
+  rcases List.append_eq_append_iff.1 he with ⟨a', h1, h2⟩ | ⟨c', h1, h2⟩
+  · refine ⟨a', names, h2, ?_, hn, by simp⟩
+    intro c hc; exact hu c (by rw [h1]; simp [hc])
+  · refine ⟨[], b, by simp, by simp, ?_, by simp⟩
+    intro c hc; exact hn c (by rw [h2]; simp [hc])
+
+theorem RelPath.str_cases' (r : RelPath) :
+    (r.path = [] ∧ r.str = [dot]) ∨ (r.path ≠ [] ∧ r.str = r.path) ∨ (r.path ≠ [] ∧ r.str = dot :: slash :: r.path) := by
+  unfold RelPath.str
+  by_cases h0 : r.path = []
+  · left; simp [h0]
+  · right
+    simp only [h0, if_false]
+    split
+    · left; exact ⟨h0, rfl⟩
+    · split
+      · left; exact ⟨h0, rfl⟩
+      · right; exact ⟨h0, rfl⟩
+
+/-- `String()` followed by `MustRelPath` is the identity on canonical values. -/
+theorem mustRel_str {cs : List Bytes} (h : CleanComps false cs) : mustRel (ofComps cs).str = some (ofComps cs) := by
+  by_cases h0 : cs = []
+  · subst h0
+    have : mustRel [dot] = some (ofComps (cleanComps false (splitOn slash [dot]))) :=
+      mustRel_eq [dot] (by simp [dot, slash])
+    simpa [ofComps, RelPath.str, splitOn, cleanComps, cleanStep, dot, slash] using this
+  · have hf := render_facts h h0
+    have hsp := splitOn_joinWith slash cs h0 (fun x hx => (cleanComps_mem h x hx).2.2)
+    have hp : (ofComps cs).path = joinWith slash cs := by simp [ofComps, h0]
+    rcases (ofComps cs).str_cases' with ⟨e, _⟩ | ⟨_, e⟩ | ⟨_, e⟩
+    · exact absurd ((ofComps_path_nil h).1 e) h0
+    · rw [e, hp]; exact mustRel_render h h0
+    · rw [e, hp]
+      rw [mustRel_eq _ (by simp [dot, slash])]
+      have : dot :: slash :: joinWith slash cs = [dot] ++ slash :: joinWith slash cs := rfl
+      rw [this, splitOn_append_sep, hsp]
+      simp only [splitOn_nosep slash [dot] (by simp [dot, slash]), List.singleton_append]
+      rw [cleanComps_cons_skip false [dot] cs (Or.inr rfl), cleanComps_id false cs h]
+
+
+theorem mustRel_unfold (s : Bytes) (v : RelPath) (h : mustRel s = some v) :
+    (if goClean s = [dot] then (⟨[], 0⟩ : RelPath) else ⟨goClean s, lastIndexOf slash (goClean s)⟩) = v := by
+  unfold mustRel at h
+  simp only at h
+  split at h
+  · cases h
+  · split at h
+    · rename_i h1; injection h with h; simp [h1, h]
+    · rename_i h1; injection h with h; simp [h1, h]
+
+theorem ofComps_path {cs : List Bytes} (h0 : cs ≠ []) : (ofComps cs).path = joinWith slash cs := by
+  simp [ofComps, h0]
+
+theorem ofComps_lastSplit {cs : List Bytes} (h0 : cs ≠ []) :
+    (ofComps cs).lastSplit = lastIndexOf slash (joinWith slash cs) := by
+  simp [ofComps, h0]
+
+/-- a clean list whose rendering does not start with `.` has no `..` entries -/
+theorem all_normal_of_head {b : List Bytes} (hb : CleanComps false b) (h0 : b ≠ [])
+    (hh : (joinWith slash b).head? ≠ some dot) : ∀ c ∈ b, Normal c := by
+  obtain ⟨ups, names, rfl, hu, hn, _⟩ := hb
+  cases ups with
+  | nil => simpa using hn
+  | cons u us =>
+    exfalso
+    have : u = dd := hu u (by simp)
+    subst this
+    apply hh
+    rw [List.cons_append, joinWith_cons_head slash dd _ (by simp [dd])]
+    rfl
+
+theorem cleanComps_append_normal {a b : List Bytes} (ha : CleanComps false a) (hb : ∀ c ∈ b, Normal c) :
+    CleanComps false (a ++ b) := by
+  obtain ⟨ups, names, rfl, hu, hn, _⟩ := ha
+  refine ⟨ups, names ++ b, by simp, hu, ?_, by simp⟩
+  intro c hc
+  simp only [List.mem_append] at hc
+  rcases hc with hc | hc
+  · exact hn c hc
+  · exact hb c hc
+
+/-- **Join agrees with concatenate-then-clean**, on component lists. -/
+theorem join_ofComps {a b : List Bytes} (ha : CleanComps false a) (hb : CleanComps false b) :
+    (ofComps a).join (ofComps b) = ofComps (cleanComps false (a ++ b)) := by
+  by_cases hb0 : b = []
+  · subst hb0
+    simp [RelPath.join, ofComps, cleanComps_id false a ha]
+  · have fb := render_facts hb hb0
+    by_cases ha0 : a = []
+    · subst ha0
+      have : (ofComps b).path ≠ [] := by rw [ofComps_path hb0]; exact fb.1
+      simp only [List.nil_append, cleanComps_id false b hb]
+      unfold RelPath.join
+      simp only [this, if_false]
+      simp [ofComps]
+    · have fa := render_facts ha ha0
+      have hpa : (ofComps a).path ≠ [] := by rw [ofComps_path ha0]; exact fa.1
+      have hpb : (ofComps b).path ≠ [] := by rw [ofComps_path hb0]; exact fb.1
+      have hsa := splitOn_joinWith slash a ha0 (fun x hx => (cleanComps_mem ha x hx).2.2)
+      have hsb := splitOn_joinWith slash b hb0 (fun x hx => (cleanComps_mem hb x hx).2.2)
+      unfold RelPath.join
+      simp only [hpa, hpb, if_false]
+      rw [ofComps_path ha0, ofComps_path hb0, ofComps_lastSplit hb0]
+      split
+      · -- re-cleaning branch
+        have hhead : (joinWith slash a ++ slash :: joinWith slash b).head? ≠ some slash := by
+          cases hj : joinWith slash a with
+          | nil => exact absurd hj fa.1
+          | cons x xs =>
+            have := fa.2.2.1
+            rw [hj] at this
+            simpa using this
+        have hm := mustRel_eq _ hhead
+        rw [splitOn_append_sep, hsa, hsb] at hm
+        exact mustRel_unfold _ _ hm
+      · rename_i hd
+        have hn := all_normal_of_head hb hb0 hd
+        have hcl := cleanComps_append_normal ha hn
+        rw [cleanComps_id false _ hcl]
+        have hne : a ++ b ≠ [] := by simp [ha0]
+        simp only [ofComps, hne, if_false, joinWith_append slash a b ha0 hb0, lastIndexOf_append_sep']
+
+
+/-- shape of a non-empty clean list's rendering: everything before the last component, `/`, the last component -/
+theorem render_snoc {init : List Bytes} {l : Bytes} (h : CleanComps false (init ++ [l])) :
+    (init = [] ∧ joinWith slash (init ++ [l]) = l ∧ lastIndexOf slash l = -1) ∨
+    (init ≠ [] ∧ joinWith slash (init ++ [l]) = joinWith slash init ++ slash :: l ∧
+      lastIndexOf slash (joinWith slash (init ++ [l])) = ((joinWith slash init).length : Int)) := by
+  have hl : slash ∉ l := (cleanComps_mem h l (by simp)).2.2
+  by_cases h0 : init = []
+  · left; subst h0
+    exact ⟨rfl, by simp [joinWith], (lastIndexOf_neg_iff slash l).2 hl⟩
+  · right
+    have hj := joinWith_append slash init [l] h0 (by simp)
+    simp only [joinWith] at hj
+    exact ⟨h0, hj, by rw [hj]; exact lastIndexOf_append_sep slash _ l hl⟩
+
+/-- **Dir drops the last component.** -/
+theorem dir_snoc {init : List Bytes} {l : Bytes} (h : CleanComps false (init ++ [l])) :
+    (ofComps (init ++ [l])).dir = ofComps init := by
+  have hne : init ++ [l] ≠ [] := by simp
+  have hf := render_facts h hne
+  unfold RelPath.dir
+  rw [ofComps_path hne, ofComps_lastSplit hne]
+  simp only [hf.1, if_false]
+  rcases render_snoc h with ⟨h0, hj, hl⟩ | ⟨h0, hj, hl⟩
+  · subst h0
+    simp only [List.nil_append] at hj
+    simp [hj, hl, ofComps]
+  · rw [hl]
+    have hnn : ¬ (((joinWith slash init).length : Int) = -1) := by omega
+    simp only [hnn, if_false, hj, Int.toNat_natCast, List.take_left']
+    simp [ofComps, h0]
+
+/-- **Last is the last component.** -/
+theorem last_snoc {init : List Bytes} {l : Bytes} (h : CleanComps false (init ++ [l])) :
+    (ofComps (init ++ [l])).last = l := by
+  have hne : init ++ [l] ≠ [] := by simp
+  have hf := render_facts h hne
+  unfold RelPath.last
+  rw [ofComps_path hne, ofComps_lastSplit hne]
+  simp only [hf.1, if_false]
+  rcases render_snoc h with ⟨h0, hj, hl⟩ | ⟨h0, hj, hl⟩
+  · subst h0
+    simp only [List.nil_append] at hj
+    simp [hj, hl]
+  · rw [hl]
+    have hnn : ¬ (((joinWith slash init).length : Int) = -1) := by omega
+    have h1 : (((joinWith slash init).length : Int) + 1).toNat = (joinWith slash init).length + 1 := by
+      generalize (joinWith slash init).length = n
+      omega
+    simp only [hnn, if_false, hj, h1]
+    have : joinWith slash init ++ slash :: l = (joinWith slash init ++ [slash]) ++ l := by simp
+    rw [this, List.drop_left' (by simp)]
+
+/-- **GoesUp** on component lists: the first component is `..` -/
+theorem goesUp_ofComps {cs : List Bytes} (h : CleanComps false cs) :
+    (ofComps cs).goesUp = true ↔ cs.head? = some dd := by
+  cases cs with
+  | nil => simp [ofComps, RelPath.goesUp, hasPrefix]
+  | cons a rest =>
+    obtain ⟨ha0, _, has⟩ := cleanComps_mem h a (by simp)
+    have hp : (ofComps (a :: rest)).path = joinWith slash (a :: rest) := ofComps_path (by simp)
+    simp only [RelPath.goesUp, hp, Bool.or_eq_true, decide_eq_true_eq, hasPrefix_iff, List.head?_cons,
+      Option.some.injEq]
+    cases rest with
+    | nil =>
+      simp only [joinWith]
+      constructor
+      · rintro (e | ⟨t, e⟩)
+        · exact e
+        · exfalso; apply has; rw [← e]; simp
+      · intro e; left; exact e
+    | cons b bs =>
+      simp only [joinWith]
+      constructor
+      · rintro (e | ⟨t, e⟩)
+        · exfalso
+          have := congrArg List.length e
+          cases a with
+          | nil => exact ha0 rfl
+          | cons x xs =>
+            cases xs with
+            | nil =>
+              simp only [List.cons_append, List.nil_append, List.cons.injEq] at e
+              -- e : x = dot ∧ slash = dot ∧ ...
+              exact absurd e.2.1 (by decide)
+            | cons y ys => simp at this
+        · -- [dot,dot,slash] ++ t = a ++ slash :: rest', a has no slash
+          cases a with
+          | nil => exact absurd rfl ha0
+          | cons x xs =>
+            cases xs with
+            | nil =>
+              simp only [List.cons_append, List.nil_append, List.cons.injEq] at e
+              exact absurd e.2.1.symm (by decide)
+            | cons y ys =>
+              cases ys with
+              | nil =>
+                simp only [List.cons_append, List.nil_append, List.cons.injEq] at e
+                rw [← e.1, ← e.2.1]; rfl
+              | cons z zs =>
+                simp only [List.cons_append, List.nil_append, List.cons.injEq] at e
+                exfalso; apply has; rw [← e.2.2.1]; simp
+      · intro e; right; subst e; exact ⟨joinWith slash (b :: bs), rfl⟩
+
 end Rio
